@@ -142,6 +142,7 @@ struct Exec {
   void set_owner(const char* owner) {
     strncpy(g_cur_owner, owner, sizeof g_cur_owner - 1);
     g_cur_owner[sizeof g_cur_owner - 1] = 0;
+    TRACE("OWNER %s", g_cur_owner);
   }
 
   // ------------------------------------------------------------------ guarded library call
@@ -342,7 +343,7 @@ struct Exec {
   // ------------------------------------------------------------------ fatal-error protocol (C16)
   template <typename F>
   void fatal_protocol(const char* kind, const std::string& what, F prim) {
-    set_owner("C16");
+    set_owner(!strcmp(kind, "F2b_init_unknown_name") ? "C13+C16" : "C16");
     orc_eval("C16");
     CallOut co = call(true, prim);
     TRACE("expected-fatal(%s) %s -> outcome %d detail %d", kind, what.c_str(), (int)co.oc, co.detail);
